@@ -103,8 +103,12 @@ def make_jobs(ctx, stride=1, channels=(1, 2, 3), skip_major=(0x16,)):
             sr = rng.choice([8000, 8000, 11025, 44100, 48000, 1, 65535, 96000])
             if rng.random() < 0.2:
                 sr = rng.choice([65536, 2 ** 30 - 1, 2 ** 30, 2 ** 30 + 1, 2 ** 31 - 1])      # the property quantifies over [1, 2^31-1]
-            if f.major == 0x11 and sr < 4000:   # SDS stores the sample period in ns: very low rates are outside its field
-                sr = 8000
+            if f.major in (0x10, 0x11) and rng.random() < 0.5:
+                # sample-period containers (HTK 100 ns, SDS 1 ns in 21 bits): the rate clause is EXACT (`periodQuant`), so the rates where
+                # the period is 1..3 units (HTK 3.2 .. 10 MHz: 6 MHz reads back as 10 MHz), where it is 0 (above the unit) and where it
+                # does not fit SDS's field (below 477 Hz) are asked for as well
+                sr = rng.choice([3200000, 3333334, 5000000, 5000001, 6000000, 9999999, 10000000, 10000001, 476, 477, 250] if f.major == 0x10
+                                else [3200000, 6000000, 320000000, 500000001, 600000000, 10 ** 9, 10 ** 9 + 1, 476, 477, 250, 4000])
             B = G.block_frames(f, ch, sr)
             n = rng.choice([0, 1, 2, 3, max(B - 1, 0), B, B + 1, 2 * B + 1, 3 * B - 1, 4 * B + 2, 100, 257, 1000, 2731])
             n = min(n, 6000)
